@@ -3,6 +3,8 @@ package model
 import (
 	"context"
 	"fmt"
+	"sort"
+	"sync"
 
 	"github.com/sboehler/knut/lib/common/cpr"
 	"github.com/sboehler/knut/lib/model/account"
@@ -46,8 +48,18 @@ type Result struct {
 	Directives []any
 }
 
+// batch holds the directives of one file.
+type batch struct {
+	path       string
+	directives []Directive
+}
+
 func FromStream(reg *registry.Registry, inCh <-chan syntax.File) (<-chan []Directive, func(context.Context) error) {
 	return cpr.Produce(func(ctx context.Context, ch chan<- []Directive) error {
+		var (
+			mutex   sync.Mutex
+			batches []batch
+		)
 		wg := pool.New().WithContext(ctx).WithCancelOnError().WithFirstError()
 		cpr.ForEach(ctx, inCh, func(input syntax.File) error {
 			wg.Go(func(ctx context.Context) error {
@@ -59,11 +71,29 @@ func FromStream(reg *registry.Registry, inCh <-chan syntax.File) (<-chan []Direc
 					}
 					ds = append(ds, m...)
 				}
-				return cpr.Push(ctx, ch, ds)
+				mutex.Lock()
+				defer mutex.Unlock()
+				batches = append(batches, batch{path: input.Path, directives: ds})
+				return nil
 			})
 			return nil
 		})
-		return wg.Wait()
+		if err := wg.Wait(); err != nil {
+			return err
+		}
+		// The files are parsed concurrently and arrive in an order which
+		// depends on scheduling. Their directives are passed on in the order
+		// of the file paths, so that the journal (the order of directives
+		// within a day) is the same on every run.
+		sort.SliceStable(batches, func(i, j int) bool {
+			return batches[i].path < batches[j].path
+		})
+		for _, b := range batches {
+			if err := cpr.Push(ctx, ch, b.directives); err != nil {
+				return err
+			}
+		}
+		return nil
 	})
 }
 
